@@ -13,7 +13,7 @@ P = "Webauthn.Props.C06."
 THEOREMS = [P + n for n in ("binding_auth", "bitflip_auth", "binding_registration", "append_inj_right_len",
                             "bitflip_reg_packed_self", "authData_of_raw",
                             "sig_same_data_same", "bitflip_reg_direct_signature", "bitflip_reg_tpm", "bitflip_reg_apple",
-                            "bitflip_reg_u2f")]
+                            "bitflip_reg_u2f", "bitflip_reg_safetynet", "b64Std_injective")]
 LEAN_TARGETS = ["Props.C06"]
 SPEC_FILES = ["Spec/Core.lean", "Props/C03.lean"]
 ASSUMPTIONS = ["PARTIAL: that a changed signature base fails verification is a cryptographic property; it appears as the named "
